@@ -338,6 +338,7 @@ func runCLIResponses(in []byte) (*reg.Result, error) {
 				_ = os.RemoveAll(root)
 				wd := filepath.Join(root, "outer", "wd")
 				_ = os.MkdirAll(filepath.Join(wd, "x"), 0o755)
+				_ = os.MkdirAll(filepath.Join(wd, "gen"), 0o755)
 				_ = os.WriteFile(filepath.Join(root, "outer", "esc.txt"), []byte("sentinel"), 0o644)
 				_ = os.WriteFile(filepath.Join(root, "esc.txt"), []byte("sentinel"), 0o644)
 				_ = os.WriteFile(filepath.Join(wd, "x", "a.proto"), []byte(renderFile("xa", nil)), 0o644)
